@@ -4,6 +4,7 @@ package objectsets
 
 import (
 	"context"
+	"strconv"
 	"strings"
 
 	"github.com/go-logr/logr"
@@ -200,7 +201,7 @@ func VerifC03C06Phases() {
 		s := d.scripts[ph.Name]
 		s.outcome = verifrt.IntRange(ph.Name+".outcome", 0, 2)
 		for range ph.Objects {
-			s.controlled = append(s.controlled, verifrt.Bool(ph.Name+".objectControlled"))
+			s.controlled = append(s.controlled, verifrt.Bool(ph.Name+".object"+strconv.Itoa(len(s.controlled))+".controlled"))
 		}
 	}
 	// arbitrary pre-existing status
